@@ -101,7 +101,8 @@ package ociauth
 //@   bytes bv
 //@   modifies nothing
 //@   requires !s.unlimited
-//@   ensures result >= len(s.others)
+//@   loop 0 invariant 0 - 1 <= rangeindex && rangeindex < len(s.actions) && len(s.others) <= n && n <= len(s.others) + 8 * (rangeindex + 1)
+//@   ensures[at-least-the-others-at-most-eight-per-repository] len(s.others) <= result && result <= len(s.others) + 8 * len(s.actions)
 
 // Type invariant of Scope: its fields are unexported and every function of
 // the package that builds or changes a Scope value (the zero value,
@@ -431,6 +432,14 @@ package ociauth
 //@   ensures[anything-else-starts-a-new-entry] !(s.ResourceType == TypeRepository && old(prev.ResourceType) == TypeRepository && s.Resource == old(prev.Resource)) ==>
 //@     built(buf) == old(built(buf)) + (old(built(buf)) != "" ? " " : "") + s.ResourceType +
 //@       ((s.Resource != "" || s.Action != "") ? ":" + s.Resource + ":" + s.Action : "")
+
+// Canonical only forgets the preserved text.
+//@ func (Scope).Canonical
+//@   strings atom
+//@   bytes bv
+//@   modifies nothing
+//@   ensures[same-set-without-the-text] result.original == "" && result.unlimited == s.unlimited && result.repositories == s.repositories &&
+//@     result.actions == s.actions && result.others == s.others && (wf(s) ==> wf(result))
 
 // ParseScope: whatever the text, the result is a well-formed scope that keeps
 // the text it was parsed from (the splitting of the text into elements is not
